@@ -181,7 +181,7 @@ CLAIMS = {
     technique='TLA+ spec + TLC model checking (where a design-level model exists); TLC trace validation of recorded executions of real nodes'),
  "C18": dict(
     category="model_checking",
-    text='Design level: spec/Handler.tla is checked by TLC (AtMostOneRefreshTimer, RoundsBounded) over every interleaving of re-bootstraps and timers; the pinned-tree policy CancelPending=FALSE must be caught. Binding: The maintenance recordings (hundreds to thousands of re-bootstrap cycles, send failures) carry one RefreshRound line per round (hook H3) and the worker's BootState line per completion; TLC checks round by round that a timer round comes at least 6 s after the previous round and that a round started by the bootstrap notification has a completion of its own, and in sliding windows of 30 s, 2 min and 20 min that the number of rounds never exceeds one per 6 s plus one plus the number of completions in the window, and that every round is caused by the refresh timer or by a bootstrap completion.',
+    text='Design level: spec/Handler.tla is checked by TLC (AtMostOneRefreshTimer, RoundsBounded) over every interleaving of re-bootstraps and timers; the pinned-tree policy CancelPending=FALSE must be caught. Binding: The maintenance recordings (hundreds to thousands of re-bootstrap cycles, send failures) carry one RefreshRound line per round (hook H3) and the BootState line of the worker per completion; TLC checks round by round that a timer round comes at least 6 s after the previous round and that a round started by the bootstrap notification has a completion of its own, and in sliding windows of 30 s, 2 min and 20 min that the number of rounds never exceeds one per 6 s plus one plus the number of completions in the window, and that every round is caused by the refresh timer or by a bootstrap completion.',
     design_ref='DESIGN.md §5 C18',
     note='A round that pings nobody is invisible on the wire, hence the hook.',
     technique='TLA+ spec + TLC model checking (where a design-level model exists); TLC trace validation of recorded executions of real nodes'),
